@@ -139,23 +139,32 @@ const HN: usize = 4;
 
 /// Bounded cross-check from `new()`, independent of `history_inv`: three pushes of
 /// <= 2-byte texts, then three navigations, compared with the reference run.
+/// (The texts are three separate arrays: Kani 0.68 mis-models the unsizing of an
+/// element of a nested array, `&texts[k]` as `&[u8]` - see DESIGN.md, tool anomalies.)
 #[kani::proof]
 #[kani::unwind(7)]
 fn c10_from_new() {
-    let texts: [[u8; 2]; 3] = kani::any();
-    let lens: [usize; 3] = kani::any();
-    let ups: [bool; 3] = kani::any();
-    let mut m = mh::Hist::<HN> { buf: [0u8; HN], used: 0 };
+    let t0: [u8; 2] = kani::any();
+    let t1: [u8; 2] = kani::any();
+    let t2: [u8; 2] = kani::any();
+    let l0: usize = kani::any();
+    let l1: usize = kani::any();
+    let l2: usize = kani::any();
+    let u0: bool = kani::any();
+    let u1: bool = kani::any();
+    let u2: bool = kani::any();
+    kani::assume(l0 <= 2 && l1 <= 2 && l2 <= 2);
+    kani::assume(t0[0] != 0 && t0[0] < 0x80 && t0[1] != 0 && t0[1] < 0x80);
+    kani::assume(t1[0] != 0 && t1[0] < 0x80 && t1[1] != 0 && t1[1] < 0x80);
+    kani::assume(t2[0] != 0 && t2[0] < 0x80 && t2[1] != 0 && t2[1] < 0x80);
+    let m0 = mh::Hist::<HN> { buf: [0u8; HN], used: 0 };
     let mut h = History::new([0u8; HN]);
-    let mut k = 0;
-    while k < 3 {
-        kani::assume(lens[k] <= 2);
-        kani::assume(texts[k][0] != 0 && texts[k][0] < 0x80 && texts[k][1] != 0 && texts[k][1] < 0x80);
-        let (m2, _) = mh::push(&m, HN, &texts[k], lens[k]);
-        m = m2;
-        h.push(unsafe { core::str::from_utf8_unchecked(&texts[k][..lens[k]]) });
-        k += 1;
-    }
+    let (m1, _) = mh::push(&m0, HN, &t0, l0);
+    h.push(unsafe { core::str::from_utf8_unchecked(&t0[..l0]) });
+    let (m2, _) = mh::push(&m1, HN, &t1, l1);
+    h.push(unsafe { core::str::from_utf8_unchecked(&t1[..l1]) });
+    let (m, _) = mh::push(&m2, HN, &t2, l2);
+    h.push(unsafe { core::str::from_utf8_unchecked(&t2[..l2]) });
     {
         let (nb, nc, nu) = h.__verif_parts();
         assert!(nu == m.used);
@@ -171,10 +180,11 @@ fn c10_from_new() {
     let mut mc: Option<usize> = None;
     let mut k = 0;
     while k < 3 {
-        let (wc, wshow) = if ups[k] { mh::older(&m, mc) } else { mh::newer(&m, mc) };
+        let up = if k == 0 { u0 } else if k == 1 { u1 } else { u2 };
+        let (wc, wshow) = if up { mh::older(&m, mc) } else { mh::newer(&m, mc) };
         mc = wc;
         let base = h.__verif_parts().0.as_ptr() as usize;
-        let got = if ups[k] { h.next_older() } else { h.next_newer() };
+        let got = if up { h.next_older() } else { h.next_newer() };
         match (got, wshow) {
             (None, None) => {}
             (Some(e), Some(st)) => {
@@ -185,7 +195,7 @@ fn c10_from_new() {
         k += 1;
     }
     kani::cover!(m.used == 4, "full buffer after three pushes");
-    kani::cover!(lens[0] == 1 && lens[1] == 1 && lens[2] == 1 && texts[0][0] == texts[2][0] && texts[0][0] != texts[1][0], "re-submitted line becomes the newest");
+    kani::cover!(l0 == 1 && l1 == 1 && l2 == 1 && t0[0] == t2[0] && t0[0] != t1[0], "re-submitted line becomes the newest");
 }
 
 /// Reachability twin.
@@ -198,3 +208,4 @@ fn c10_push_twin() {
     let (nb, nc, nu) = h.__verif_parts();
     assert!(nu != 3, "twin: must be reported as FAILED");
 }
+
